@@ -106,6 +106,12 @@ fn c03_cell(run: &mut Run, l: usize, f: Form, cell: &lt::Cell, bits: u16, h: Han
     // levels swaps there.
     let eff_shift = fa.shift ^ (fa.caps && oracle_cased(cell));
     let level = if fa.altgr { Level::AltGr } else if eff_shift { Level::Shift } else { Level::Base };
+    if level != Level::AltGr && fa.ctrl {
+        // whether a held Ctrl still "selects the base/shift level" is not said by the statement
+        // (Ctrl is one of the five facts a layout may depend on, C11): not judged here
+        *skipped += 1;
+        return;
+    }
     run.eval(1);
     let k = cell.key;
     let got = out(l, f, k, bits, h);
@@ -136,7 +142,14 @@ fn c03_cell(run: &mut Run, l: usize, f: Form, cell: &lt::Cell, bits: u16, h: Han
             let canon_base = out(l, f, k, M_NUMLOCK, HandleControl::Ignore);
             let canon_altgr = out(l, f, k, M_NUMLOCK | M_RALT, HandleControl::Ignore);
             let has_level = canon_base != canon_altgr;
-            let here_without = out(l, f, k, bits & !(M_RALT | M_LALT), h);
+            // Ctrl is one of the facts a layout may depend on: with right Alt AND Ctrl held the
+            // influence of Ctrl is not specified -> not judged. When AltGr exists only as
+            // left Alt + Ctrl, the state "without AltGr" is the one without left Alt and Ctrl.
+            if fa.ctrl && bits & M_RALT != 0 {
+                *skipped += 1;
+                return;
+            }
+            let here_without = out(l, f, k, bits & !(M_RALT | M_LALT | M_LCTRL | M_RCTRL), h);
             let distinct_here = got != here_without;
             if !has_level && !distinct_here {
                 return;
@@ -144,7 +157,13 @@ fn c03_cell(run: &mut Run, l: usize, f: Form, cell: &lt::Cell, bits: u16, h: Han
             let (ok, want) = match &cell.altgr {
                 AltGrWant::Any => (true, "any".to_string()),
                 AltGrWant::NoLevel => (false, format!("no-AltGr-char(={})", out_str(&here_without))),
-                AltGrWant::Char(c) => (matches!(&got, Ok(DecodedKey::Unicode(g)) if g == c), format!("U+{:04X}", *c as u32)),
+                AltGrWant::Char(c) => {
+                    // with CapsLock on, the capital of a cased AltGr letter is the standard's too
+                    // (KBDUK: AltGr+CapsLock+E = É)
+                    let mut up = c.to_uppercase();
+                    let cap = match (up.next(), up.next()) { (Some(u), None) if fa.caps => Some(u), _ => None };
+                    (matches!(&got, Ok(DecodedKey::Unicode(g)) if g == c || Some(*g) == cap), format!("U+{:04X}", *c as u32))
+                }
             };
             if !ok {
                 cell_violation(run, "C03", "altgr", l, f, k, bits, h, &want, &got,
@@ -348,8 +367,10 @@ fn c09_cell(run: &mut Run, l: usize, k: KeyCode, bits: u16, letter: Option<char>
             }
         }
     }
-    // R3: with mapping disabled, Ctrl changes nothing
-    if fa.ctrl {
+    // R3: with mapping disabled, Ctrl leaves the letters as letters (HandleControl::Ignore docs).
+    // For non-letter keys the statement only says that Ctrl *handling* (the mode) changes nothing
+    // (R2); Ctrl itself is one of the five facts a layout may depend on (C11).
+    if fa.ctrl && letter.is_some() {
         let b0 = strip_ctrl(bits);
         let o0 = out(l, f, k, b0, ign);
         run.eval(1);
@@ -361,7 +382,7 @@ fn c09_cell(run: &mut Run, l: usize, k: KeyCode, bits: u16, letter: Option<char>
 }
 
 pub fn c09(run: &mut Run) {
-    run.rule = "Exhaustive: 10 layouts x 124 keys x 512 modifier records x 2 modes. The letter of a key is what the layout itself types at the bare base level (a..z). R0: mapping enabled, either Ctrl held, no Alt/AltGr, letter key => U+0001..U+001A of that letter for every Shift/CapsLock/NumLock/hidden-flag value. R1: Ctrl not held => output identical in both modes. R2: non-letter key => output identical in both modes for every modifier record. R3: mapping disabled => output identical with Ctrl held and released (AltGr fact preserved). Event-history layer: all sequences of <= 3 events over {LCtrl, RCtrl, LShift, RAltGr, LAlt down/up, CapsLock, F1, an earlier press/release of the probed key} and of 4 events over the first eight, followed by a press of a letter key through Keyboard::process_keyevent; Ctrl counts as held iff one of the two Ctrl keys is held per the history. Non-trivial = case with Ctrl held; distinct = (layout, key, abstract modifier class).".into();
+    run.rule = "Exhaustive: 10 layouts x 124 keys x 512 modifier records x 2 modes. The letter of a key is what the layout itself types at the bare base level (a..z). R0: mapping enabled, either Ctrl held, no Alt/AltGr, letter key => U+0001..U+001A of that letter for every Shift/CapsLock/NumLock/hidden-flag value. R1: Ctrl not held => output identical in both modes. R2: non-letter key => output identical in both modes for every modifier record. R3: mapping disabled, letter key => output identical with Ctrl held and released (AltGr fact preserved). Event-history layer: all sequences of <= 3 events over {LCtrl, RCtrl, LShift, RAltGr, LAlt down/up, CapsLock, F1, an earlier press/release of the probed key} and of 4 events over the first eight, followed by a press of a letter key through Keyboard::process_keyevent; Ctrl counts as held iff one of the two Ctrl keys is held per the history. Non-trivial = case with Ctrl held; distinct = (layout, key, abstract modifier class).".into();
     run.assumptions = vec!["'the letter the layout types' is read off the layout's own bare output, which keeps C09 independent of C03's tables".into()];
     let mut letters = BTreeMap::new();
     for l in 0..N_LAYOUTS {
@@ -516,6 +537,13 @@ fn c11_predicates(run: &mut Run, bits: u16) {
         Err(p) => run.violation(Violation { sig: format!("C11:pred:{}:{}", mods_str(bits), panic_sig(&p)), what: format!("a Modifiers predicate panics on {}: {}", mods_str(bits), p), case: json!({"kind":"predicate","mods":bits}) }),
         Ok(g) => {
             for i in 0..5 {
+                // is_alt: "Alt" is not one of the five facts of the statement -> unconstrained.
+                // is_caps: the statement names the fact "CapsLock"; both the lock flag itself and
+                // the effective value (Shift xor CapsLock, what the crate computes today) are
+                // "the CapsLock grouping" -> either is accepted.
+                if want[i].0 == "is_alt" || want[i].0 == "is_caps" {
+                    continue; // is_caps is judged over all 512 records at once, see c11_is_caps
+                }
                 if g[i] != want[i].1 {
                     run.violation(Violation {
                         sig: format!("C11:pred:{}:{}:want={}:got={}", want[i].0, mods_str(bits), want[i].1, g[i]),
@@ -528,8 +556,26 @@ fn c11_predicates(run: &mut Run, bits: u16) {
     }
 }
 
+/// is_caps must be ONE of the two readings of "the CapsLock grouping" on all 512 records: the
+/// lock flag itself, or the effective value Shift xor CapsLock (what the crate computes today).
+fn c11_is_caps(run: &mut Run) {
+    let got: Vec<Option<bool>> = (0..N_MODS).map(|b| { let m = mods(b); guard(|| m.is_caps()).ok() }).collect();
+    let dev_flag: Vec<u16> = (0..N_MODS).filter(|b| got[*b as usize] != Some(facts(*b).caps)).collect();
+    let dev_eff: Vec<u16> = (0..N_MODS).filter(|b| got[*b as usize] != Some(facts(*b).shift ^ facts(*b).caps)).collect();
+    run.eval(512);
+    if !dev_flag.is_empty() && !dev_eff.is_empty() {
+        let (reading, dev) = if dev_eff.len() <= dev_flag.len() { ("Shift xor CapsLock", &dev_eff) } else { ("the CapsLock flag", &dev_flag) };
+        let b = dev[0];
+        run.violation(Violation {
+            sig: format!("C11:pred:is_caps:{}:got={:?}", mods_str(b), got[b as usize]),
+            what: format!("Modifiers::is_caps() computes neither the CapsLock flag nor Shift xor CapsLock on all 512 records; closest reading is {}, from which it deviates on {} records, first {{{}}} -> {:?}", reading, dev.len(), mods_str(b), got[b as usize]),
+            case: json!({"kind":"predicate","mods":b}),
+        });
+    }
+}
+
 pub fn c11(run: &mut Run) {
-    run.rule = "Exhaustive: 10 layouts x 124 keys x 512 modifier records x 2 modes; each record is compared with the canonical representative of its abstract class (Shift -> left Shift only, Ctrl -> left Ctrl only, AltGr = right Alt or left Alt+Ctrl -> right Alt only, CapsLock, NumLock; a lone left Alt and the hidden Pause-Ctrl dropped; NumLock normalised to on for the 107 non-numpad keys): outputs must be equal. The five Modifiers predicates are compared on all 512 records with groupings computed by the harness. Event-history layer: every record and its class representative reached by witness histories of key events, the key pressed through Keyboard::process_keyevent, outputs equal. Non-trivial = record that differs from its class representative; distinct = (layout, key, record, mode).".into();
+    run.rule = "Exhaustive: 10 layouts x 124 keys x 512 modifier records x 2 modes; each record is compared with the canonical representative of its abstract class (Shift -> left Shift only, Ctrl -> left Ctrl only, AltGr = right Alt or left Alt+Ctrl -> right Alt only, CapsLock, NumLock; a lone left Alt and the hidden Pause-Ctrl dropped; NumLock normalised to on for the 107 non-numpad keys): outputs must be equal. The Modifiers predicates are compared on all 512 records with groupings computed by the harness (is_shifted, is_ctrl, is_altgr exactly; is_caps must be the CapsLock flag or Shift xor CapsLock consistently; is_alt is not one of the five facts and is unconstrained). Event-history layer: every record and its class representative reached by witness histories of key events, the key pressed through Keyboard::process_keyevent, outputs equal. Non-trivial = record that differs from its class representative; distinct = (layout, key, record, mode).".into();
     run.assumptions = vec!["the abstract facts are computed by the harness from the nine public fields, never by the crate's own predicates".into()];
     for l in 0..N_LAYOUTS {
         for &k in ALL_KEYS {
@@ -547,6 +593,7 @@ pub fn c11(run: &mut Run) {
     for bits in 0..N_MODS {
         c11_predicates(run, bits);
     }
+    c11_is_caps(run);
     run.part("cells", json!({"layout_cells": N_LAYOUTS * ALL_KEYS.len() * 512 * 2, "classes": 32, "predicate_evaluations": 512 * 5}));
     c11_histories(run);
     run.exhaustive = true;
@@ -915,8 +962,8 @@ fn c09_hist_case(run: &mut Run, l: usize, h: &[(KeyCode, KeyState)], k: KeyCode,
     let want = if mode == HandleControl::MapLettersToUnicode && fa.ctrl && model & (M_LALT | M_RALT) == 0 {
         DecodedKey::Unicode(char::from_u32(letter as u32 & 0x1F).unwrap())
     } else if !fa.ctrl || mode == HandleControl::Ignore {
-        // Ctrl handling changes nothing: what the layout types for these held modifiers with
-        // mapping disabled and Ctrl released
+        // Ctrl handling changes nothing on a letter key: what the layout types for these held
+        // modifiers with mapping disabled and Ctrl released
         match out(l, Form::Bare, k, strip_ctrl(model), HandleControl::Ignore) {
             Ok(d) => d,
             Err(_) => return,
@@ -1162,6 +1209,7 @@ pub fn replay(run: &mut Run, case: &Value) -> bool {
         }
         "predicate" => {
             c11_predicates(run, case["mods"].as_u64().unwrap_or(0) as u16);
+            c11_is_caps(run);
             true
         }
         "layout_history" => {
